@@ -41,6 +41,15 @@ class Index(Dummy):
         """Returns space and spin of the Index."""
         return self.space, self.spin
 
+    def sort_key(self, order=None):
+        # Indices that share a name (same name, different space or spin) are
+        # ordered by space and spin before falling back to the creation order.
+        # Otherwise the order of the terms in a printed expression depends on
+        # which of the indices happened to be created first.
+        cls_key, (n, _), coeff, exp = super().sort_key(order=order)
+        key = (self.name, self.space, self.spin, self.dummy_index)
+        return cls_key, (n, key), coeff, exp
+
     def __str__(self):
         spin = self.spin
         return f"{self.name}_{spin}" if spin else self.name
